@@ -144,7 +144,7 @@ func countExcluded(p gobatch.Program) string {
 }
 
 func TestDeferPanicRecover(t *testing.T) {
-	n := rec.Scale(300, 3000)
+	n := rec.Scale(300, 1500)
 	if v, err := strconv.Atoi(os.Getenv("C07_DEV_N")); err == nil && v > 0 {
 		n = v // development only
 	}
